@@ -504,7 +504,9 @@ def check_c18(prop, tier, replay, selftest):
     res.distinct = seen
     res.rule = ("records = seeded add sequences (1-7 nogoods over 2-6 positions; duplicates, nested and subsuming nogoods, mode switches "
                 "None/Equiv/Subsume) on a real NoGoodStore, each followed by conclusions + closure queries (all 3^v interpretations for v <= 3, "
-                "targeted and random ones above); distinct = distinct add sequence; non-trivial = at least one query yields a conflict or a new literal")
+                "targeted and random ones above); a quarter of the sequences use 2-6 positions scattered over a store up to 140 000 positions wide "
+                "(word, 4096- and 65536-boundaries of the bitmap representation; TLC maps the real positions back through the record's position list); "
+                "distinct = distinct add sequence; non-trivial = at least one query yields a conflict or a new literal")
     res.samples = [dict(json.loads(l), queries=json.loads(l)["queries"][:2], dump="...") for l in tr["lines"][10:12]]
     res.extra["drift_count"] = len(res.drift)
     res.assumptions = ["TLC evaluates NoGoodsOps correctly", "hook H2 exports buckets / closure faithfully",
